@@ -16,7 +16,8 @@ CLASSES = {
              'of a block\'s last line; statements merged/split by the edit such as else->elsex, elif->if; edits at '
              'column 0 / across a block header). Each listed key is one failing (program, rectangle, text).'),
     'accepted_invalid': ('F-C10-2', 'F-C10-2 put_src(action="reparse") succeeds although the new whole source is not valid '
-                         'Python (the reparsed statement is valid in isolation, e.g. "if x: if z:\\n y = 1").'),
+                         'Python (the reparsed statement is valid in isolation, e.g. "if x: if z:\\n y = 1"; also a raw put with to= that '
+                         'spans statements, e.g. from the test of "if a:" to a value in a later statement -> "if zz").'),
     'refused_valid': ('F-C10-3', 'F-C10-3 put_src(action="reparse") / raw put raises although the new whole source is valid '
                       'Python (e.g. commenting out the last statement of a block body that has other statements, '
                       'deleting the el of elif, "while a: b" -> "a: b").'),
